@@ -421,7 +421,7 @@ func c55MustOmit(k string) bool {
 var c55OmitPool = []string{":path", ":authority", "content-type", "user-agent", "te", "lb-token", "grpc-timeout", "grpc-encoding", "grpc-status", "grpc-message", "grpc-accept-encoding", "grpc-tags-bin", "grpc-", "grpc-trace-binx", "grpc-previous-rpc-attempts"}
 var c55UserPool = []string{"a", "b-bin", "key", "x-custom", "authorization", "tea", "te-x", "content-typex", "path", "authority", "grpcx", "grp", "user-agent2", "lb-token-2", "zz"}
 
-func c55E2E(r *vlib.Run, fam string, i int, rng *rand.Rand) {
+func c55GenMD(rng *rand.Rand) (metadata.MD, uint64) {
 	md := metadata.MD{}
 	nk := rng.Intn(7)
 	for k := 0; k < nk; k++ {
@@ -457,6 +457,11 @@ func c55E2E(r *vlib.Run, fam string, i int, rng *rand.Rand) {
 			total += uint64(len(k) + len(v))
 		}
 	}
+	return md, total
+}
+
+func c55E2E(r *vlib.Run, fam string, i int, rng *rand.Rand) {
+	md, total := c55GenMD(rng)
 	var limit uint64
 	switch rng.Intn(7) {
 	case 0:
@@ -494,7 +499,12 @@ func c55E2E(r *vlib.Run, fam string, i int, rng *rand.Rand) {
 		r.Violation("e2e-entry-count", fam, i, nil, "Log wrote %d entries to the sink, want 1", len(got))
 		return
 	}
-	e := got[0]
+	c55JudgeEntry(r, fam, i, md, total, limit, kind, got[0], "")
+}
+
+// c55JudgeEntry judges one logged header/trailer entry against the statement
+// for the header limit of the logger that produced it.
+func c55JudgeEntry(r *vlib.Run, fam string, i int, md metadata.MD, total, limit uint64, kind int, e *binlogpb.GrpcLogEntry, note string) bool {
 	var logged *binlogpb.Metadata
 	switch kind {
 	case 0:
@@ -514,13 +524,13 @@ func c55E2E(r *vlib.Run, fam string, i int, rng *rand.Rand) {
 	for _, le := range logged.GetEntry() {
 		loggedDump = append(loggedDump, c55Entry{Key: le.Key, Len: len(le.Value)})
 	}
-	det := map[string]any{"kind": kind, "limit": limit, "md_value_lens": mdDump, "logged": loggedDump, "truncated": e.PayloadTruncated}
+	det := map[string]any{"note": note, "kind": kind, "limit": limit, "md_value_lens": mdDump, "logged": loggedDump, "truncated": e.PayloadTruncated}
 
 	// (1) omitted names never appear
 	for _, le := range logged.GetEntry() {
 		if c55MustOmit(le.Key) {
 			r.Violation("omitted-header-logged", fam, i, det, "header %q must never be logged but appears in the entry", le.Key)
-			return
+			return false
 		}
 	}
 	// (2) what is logged is, per key, a prefix of that key's values, in order,
@@ -532,18 +542,18 @@ func c55E2E(r *vlib.Run, fam string, i int, rng *rand.Rand) {
 		vv, ok := md[le.Key]
 		if !ok {
 			r.Violation("e2e-foreign-entry", fam, i, det, "logged key %q is not in the metadata", le.Key)
-			return
+			return false
 		}
 		n := perKey[le.Key]
 		if n >= len(vv) || vv[n] != string(le.Value) {
 			r.Violation("e2e-value-order", fam, i, det, "logged value #%d of key %q is not the metadata's value #%d", n, le.Key, n)
-			return
+			return false
 		}
 		if n == 0 {
 			order = append(order, le.Key)
 		} else if order[len(order)-1] != le.Key {
 			r.Violation("e2e-value-order", fam, i, det, "values of key %q are not contiguous in the log", le.Key)
-			return
+			return false
 		}
 		perKey[le.Key] = n + 1
 		if le.Key != c55TraceBin {
@@ -559,12 +569,12 @@ func c55E2E(r *vlib.Run, fam string, i int, rng *rand.Rand) {
 			r.Count("e2e_trailer_over_header_limit_not_truncated", 1)
 		}
 		r.Nontrivial(fmt.Sprintf("e2e/trailer/omit=%v", c55HasOmitted(md)))
-		return
+		return true
 	}
 	// (3) counted size fits
 	if limit != maxUInt && counted > limit {
 		r.Violation("e2e-over-limit", fam, i, det, "logged entries count %d bytes > header limit %d", counted, limit)
-		return
+		return false
 	}
 	// (4) the keys that must be logged (content-encoding is additionally omitted
 	// by the shipped design; the statement's list does not mention it, so it may
@@ -607,7 +617,7 @@ func c55E2E(r *vlib.Run, fam string, i int, rng *rand.Rand) {
 		ok := false
 		if len(partial) > 1 {
 			r.Violation("e2e-not-a-prefix", fam, i, det, "keys %v are each only partially logged: the log is not a prefix of any key-grouped order", partial)
-			return
+			return false
 		}
 		if len(partial) == 1 {
 			k := partial[0]
@@ -621,7 +631,7 @@ func c55E2E(r *vlib.Run, fam string, i int, rng *rand.Rand) {
 			next := md[k][perKey[k]]
 			if last != k {
 				r.Violation("e2e-not-a-prefix", fam, i, det, "key %q is partially logged but entries of key %q follow it", k, last)
-				return
+				return false
 			}
 			ok = uint64(len(k)+len(next)) > left
 		} else {
@@ -641,6 +651,73 @@ func c55E2E(r *vlib.Run, fam string, i int, rng *rand.Rand) {
 	if dropped {
 		r.Count("e2e_cases_with_drop", 1)
 	}
+	return true
+}
+
+// c55Shared logs ONE LogEntryConfig value through two or three truncating
+// method loggers with different header limits (grpc hands the same entry to
+// every configured binary logger: `for _, binlog := range binlogs {
+// binlog.Log(ctx, entry) }`).  Every logger's output is judged against the
+// statement for ITS OWN limit: what an earlier logger dropped must not be
+// missing from a later one.
+func c55Shared(r *vlib.Run, fam string, i int, rng *rand.Rand) {
+	md, total := c55GenMD(rng)
+	for len(md) == 0 || total == 0 {
+		md, total = c55GenMD(rng)
+	}
+	// limits: one that certainly drops something, one unlimited / generous, one random
+	small := uint64(rng.Int63n(int64(total)))
+	if rng.Intn(4) == 0 {
+		small = 0
+	}
+	limits := []uint64{small, vlib.Pick(rng, maxUInt, total, total+uint64(rng.Intn(10)), maxUInt)}
+	if rng.Intn(2) == 0 {
+		limits = append(limits, uint64(rng.Int63n(int64(total)+5)))
+	}
+	if rng.Intn(6) == 0 {
+		limits[1] = small // same limit twice
+	}
+	rng.Shuffle(len(limits), func(a, b int) { limits[a], limits[b] = limits[b], limits[a] })
+	kind := rng.Intn(2)
+	var cfg LogEntryConfig
+	if kind == 0 {
+		cfg = &ClientHeader{OnClientSide: rng.Intn(2) == 0, Header: md, MethodName: "/s/m", Authority: "auth"}
+	} else {
+		cfg = &ServerHeader{OnClientSide: rng.Intn(2) == 0, Header: md}
+	}
+	useBuild := rng.Intn(3) == 0
+	droppedBefore := false
+	for k, limit := range limits {
+		ml := NewTruncatingMethodLogger(limit, maxUInt)
+		var e *binlogpb.GrpcLogEntry
+		if useBuild {
+			e = ml.Build(cfg)
+		} else {
+			sink := &c55Sink{}
+			ml.sink = sink
+			ml.Log(context.Background(), cfg)
+			sink.mu.Lock()
+			if len(sink.got) == 1 {
+				e = sink.got[0]
+			}
+			sink.mu.Unlock()
+		}
+		r.Eval(1)
+		if e == nil {
+			r.Violation("e2e-entry-count", fam, i, nil, "logger #%d wrote no entry", k)
+			return
+		}
+		note := fmt.Sprintf("same entry config logged by %d loggers with header limits %v; this is logger #%d", len(limits), limits, k)
+		if !c55JudgeEntry(r, fam, i, md, total, limit, kind, e, note) {
+			return
+		}
+		larger := k > 0 && (limit == maxUInt || limit > limits[k-1])
+		r.Nontrivial(fmt.Sprintf("shared/pos=%d/earlier-dropped=%v/larger-than-previous=%v/build=%v", k, droppedBefore, larger, useBuild))
+		if limit != maxUInt && limit < total {
+			droppedBefore = true
+		}
+	}
+	r.Count("shared_entry_cases", 1)
 }
 
 func c55HasOmitted(md metadata.MD) bool {
@@ -700,11 +777,19 @@ func TestVerifC55(t *testing.T) {
 		}
 		c55E2E(r, "e2e", i, r.Rand("e2e", i))
 	}
+	n = r.N(30000, 500000)
+	for i := 0; i < n; i++ {
+		if !r.Want("shared", i) {
+			continue
+		}
+		c55Shared(r, "shared", i, r.Rand("shared", i))
+	}
 	r.Finish(vlib.Spec{
 		Level: "exploration",
 		Rule: "trunc: PRNG Metadata protos (0-11 entries, grpc-trace-bin at chosen/random/every position, empty keys, 0..2000-byte values) x limits at and around every prefix sum, 0, MaxUint64(-k), fed to the real truncateMetadata and compared with the statement's reference; " +
 			"message: payloads 0..5000 bytes x limits {0,len-1,len,len+1,random,MaxUint64} through Build; " +
 			"e2e: random metadata.MD with omitted/user/trace-bin keys through NewTruncatingMethodLogger(h,max).Log into a capturing sink, order-agnostic prefix oracle; " +
+			"shared: ONE ClientHeader/ServerHeader config logged through 2-3 method loggers with different header limits in random order (Log and Build), every output judged for its own limit; " +
 			"omit: every omitted name and near-misses. distinct = (family, cut position class, trace-bin before/after cut, limit class, flags)",
 		Assumptions: []string{
 			"statement reference: grpc-trace-bin is always kept and never counted, also when it follows the first entry that does not fit",
